@@ -484,14 +484,15 @@ package stun
 //@   | && be16(m.Raw, 2) == m.Length
 //@   | && forall(i, 0, 20 + old(m.Length), i == 2 || i == 3 || m.Raw[i] == old(m.Raw[i]))
 //@   | && be16(m.Raw, 20 + old(m.Length)) == t && be16(m.Raw, 20 + old(m.Length) + 2) == len(val)
-//@   | && forall(j, 0, len(val), m.Raw[20 + old(m.Length) + 4 + j] == old(val[j]))
+//@   | && (old(NoClobber(m, val)) ==> forall(j, 0, len(val), m.Raw[20 + old(m.Length) + 4 + j] == old(val[j])))
 //@   | && forall(j, len(val), pad4(len(val)), m.Raw[20 + old(m.Length) + 4 + j] == 0)
 //@   | && len(m.Attributes) == old(len(m.Attributes)) + 1
 //@   | && (region(m.Attributes) == old(region(m.Attributes)) || fresh(m.Attributes))
 //@   | && forall(k, 0, old(len(m.Attributes)), m.Attributes[k] == old(m.Attributes[k]))
 //@   | && m.Attributes[old(len(m.Attributes))].Type == t && m.Attributes[old(len(m.Attributes))].Length == len(val)
 //@   | && len(m.Attributes[old(len(m.Attributes))].Value) == len(val)
-//@   | && forall(j, 0, len(val), m.Attributes[old(len(m.Attributes))].Value[j] == old(val[j]))
+//@   | && (old(NoClobber(m, val)) ==> forall(j, 0, len(val), m.Attributes[old(len(m.Attributes))].Value[j] == old(val[j])))
+//@   | && forall(j, 0, len(val), m.Attributes[old(len(m.Attributes))].Value[j] == m.Raw[20 + old(m.Length) + 4 + j])
 //@   | && (region(m.Attributes[old(len(m.Attributes))].Value) == region(m.Raw) ==> off(m.Attributes[old(len(m.Attributes))].Value) == off(m.Raw) + 20 + old(m.Length) + 4)
 //@   | && m.Type.Method == old(m.Type.Method) && m.Type.Class == old(m.Type.Class) && forall(j, 0, 12, m.TransactionID[j] == old(m.TransactionID[j]))
 
@@ -500,10 +501,11 @@ package stun
 //@   | && forall(i, 0, len(m.Raw), m.Raw[i] == old(m.Raw[i]))
 //@   | && forall(k, 0, len(m.Attributes), m.Attributes[k] == old(m.Attributes[k]))
 
-// CanAdd(m, val): Add's precondition: consistent length, representable sizes, and val does not overlap the
-// area being written (it may be elsewhere in the buffer, or exactly at its destination as in re-encoding).
+// CanAdd(m, val): Add's precondition: consistent length and representable sizes.
 //@ define CanAdd(m, val) = m != nil && len(m.Raw) >= 20 + m.Length && Fits(m, len(val))
-//@   | && (region(val) != region(m.Raw) || off(val) + len(val) <= off(m.Raw) + 20 + m.Length || off(val) == off(m.Raw) + 20 + m.Length + 4)
+// NoClobber(m, val): val does not overlap the area Add writes (it may be elsewhere in the buffer, or exactly at
+// its destination as in re-encoding); only then is the appended value guaranteed to equal val's old bytes.
+//@ define NoClobber(m, val) = region(val) != region(m.Raw) || off(val) + len(val) <= off(m.Raw) + 20 + m.Length || off(val) == off(m.Raw) + 20 + m.Length + 4
 
 //@ func (*Message).Add
 //@   safety C03 C08 C09
@@ -835,6 +837,8 @@ package stun
 //@   requires m != nil && len(m.Raw) == 20 + m.Length && Fits(m, 4)
 //@   assigns m.Raw, m.Length, m.Attributes, mem(m.Raw), mem(m.Attributes)
 //@   allocates
+//@   use be32_roundtrip(val)
+//@   assert be32(m.Raw, len(m.Raw) - 4) == val
 //@   ensures result == nil && AppendedHdr(m, 0x8028, 4)
 //@   ensures be32(m.Raw, len(m.Raw) - 4) == xor32(crc32(m.Raw[:len(m.Raw) - 8]), 0x5354554e)
 
